@@ -3,7 +3,7 @@ from vlib import g1check
 
 PROPERTY = "C20"
 LEVEL = "exploration"
-RULE = ("Also G2 await / yield-from / async-generator chains in which some frames hold managers open (coroutine, generator and async-generator frames reached through other frames: await, asend, __anext__, async for, yield from), every frame of the extracted stack listing exactly its own open managers (referents mode). "
+RULE = ("(Mode leg, run first: the first-use self-test is made to fail once by a trace function; set_trickery_enabled(None) afterwards must bring auto-detection back - trickery in force on CPython.) Also G2 await / yield-from / async-generator chains in which some frames hold managers open (coroutine, generator and async-generator frames reached through other frames: await, asend, __anext__, async for, yield from), every frame of the extracted stack listing exactly its own open managers (referents mode). "
         "Also a leg over managers the harness cannot instrument: linear nests (1-4 with / async with statements, 1-3 items; a third of the items enter the manager object of an earlier item again - re-entrant / reusable managers, the same object active in two blocks of one frame - and async items may be managers whose __aexit__ suspends, giving observation points with an exiting context) of standard-library managers (and, in trickery mode, a MagicMock used as a manager: its exit callable is no bound method, so its context may have obj None, nothing else may suffer), seven kinds of them implemented in C (threading.Lock / RLock, StringIO, BytesIO, memoryview, decimal.localcontext, file objects), the others in Python (nullcontext, suppress, closing, ExitStack, Condition, Semaphore, redirect_stdout, AsyncExitStack, aclosing), observed at every suspension point in referents mode against the statically known active set (identity, order, is_async). "
         "G1 with-programs (generator / coroutine / async generator; a quarter of them holding a dead weakref proxy, a lazy object whose __class__ is computed and a bound method of a nameless callable in their locals) observed at every suspension point with "
         "set_trickery_enabled(False) on CPython 3.9-3.12. Oracle against the managers' shadow stack: every truly active "
@@ -58,6 +58,18 @@ def mode_shard(arg):
     from vlib.workers import ALL, WorkerDied, WorkerSet
     out = Outcome()
     with WorkerSet(ALL, hooks=False) as ws:
+        if arg.get("race_vals"):
+            # None after a self-test that failed once must really restore auto-detection (first: the race legs below
+            # presuppose that a reset gets the self-test to run again)
+            case = {"failed_selftest": True}
+            for interp in ALL:
+                res = ws[interp].request({"op": "modes.failed_selftest"})
+                out.per_interp[interp] += 1
+                if res["obs"]:
+                    out.violation("%s on %s: %r" % (res["obs"][0]["kind"], interp, res["obs"][0]), case, interp)
+            out.note_case(case, True, classes=["failed_selftest_then_None"], n_eval=len(ALL))
+            if out.violations:
+                return out
         for val in arg.get("race_vals", []):
             case = {"selftest_race": True, "val": val}
             for interp in ALL:
@@ -121,6 +133,17 @@ def replay(ctx, data):
     if "stdlib_managers" in data["case"]:
         from vlib import cmgrleg
         return cmgrleg.replay(ctx, data, "ref.")
+    if data["case"].get("failed_selftest"):
+        from vlib.driver import Outcome
+        from vlib.workers import ALL, WorkerSet
+        out = Outcome()
+        with WorkerSet(ALL, hooks=False) as ws:
+            for interp in ALL:
+                res = ws[interp].request({"op": "modes.failed_selftest"})
+                out.note_case(data["case"], True)
+                if res["obs"]:
+                    out.violation("%s on %s: %r" % (res["obs"][0]["kind"], interp, res["obs"][0]), data["case"], interp)
+        return out
     if data["case"].get("reset_race"):
         from vlib.driver import Outcome
         from vlib.workers import ALL, WorkerSet
